@@ -359,3 +359,112 @@ Lemma scope_example_ok :
   a_run unit (fun _ _ _ _ => tt) (fun _ => 0) (fun d => d) 0 (a_init unit tt) scope_example
   = [(65537, 65536, 64, 1, 14, 0); (65540, 65536, 170, 3, 49, 0)].
 Proof. split; [cbn; repeat split|vm_compute; reflexivity]. Qed.
+
+(* ---- beyond the 8192 scope: extended highest, LSR, DLSR and jitter do not
+   depend on the bitmap; they follow the recount on every history whose
+   arrivals stay within 2^15 of the highest (any reordering depth, any jump
+   below 2^15, any number of cycles) ---- *)
+Section HalfRange.
+  Variable J : Type.
+  Variable j0 : J.
+  Variable jstep : J -> Z -> Z -> Z -> J.
+  Variable jout : J -> Z.
+  Variable dk : Z -> Z.
+  Variable rate : Z.
+
+  Definition half_okb (a : astate J) (op : aop) : bool :=
+    match op, a_hi a with
+    | ARtp _ v _, None => (0 <=? v) && (v <? 65536)
+    | ARtp _ v _, Some H => (H - 32768 <=? v) && (v <? H + 32768)
+    | _, _ => true
+    end.
+
+  Fixpoint in_half_scope (a : astate J) (ops : list aop) : Prop :=
+    match ops with
+    | [] => True
+    | op :: tl => half_okb a op = true /\ in_half_scope (fst (a_step J jstep jout dk rate a op)) tl
+    end.
+
+  (* (extended highest, LSR, DLSR, jitter) of a report *)
+  Definition proj4 (r : rrep) : Z * Z * Z * Z :=
+    let '(ext, lsr, _, _, delay, jit) := r in (ext, lsr, delay, jit).
+
+  Definition rel4 (st : rstate J) (a : astate J) : Prop :=
+    r_jit st = a_jit a /\ r_lsr st = a_lsr a /\ r_lsr_time st = a_lsr_time a /\
+    match a_hi a with
+    | None => r_started st = false /\ r_last st = 0 /\ r_cycles st = 0
+    | Some H =>
+        r_started st = true /\ r_last st = H mod 65536 /\ r_cycles st = (H / 65536) mod 65536 /\
+        r_last_rtp st = a_ts a /\ r_last_time st = a_time a
+    end.
+
+  Lemma half_old v H : H - 32768 <= v <= H ->
+    (0 <? (v - H) mod 65536) && ((v - H) mod 65536 <? 32768) = false.
+  Proof. intros. destruct (0 <? _) eqn:?; destruct (_ <? 32768) eqn:?; simpl; auto; lia. Qed.
+
+  Lemma half_new v H : H < v < H + 32768 ->
+    (0 <? (v - H) mod 65536) && ((v - H) mod 65536 <? 32768) = true.
+  Proof. intros. destruct (0 <? _) eqn:?; destruct (_ <? 32768) eqn:?; simpl; auto; lia. Qed.
+
+  Lemma half_cycles v H : H < v < H + 32768 ->
+    (if v mod 65536 <? H mod 65536 then add16 ((H / 65536) mod 65536) 1 else (H / 65536) mod 65536)
+    = (v / 65536) mod 65536.
+  Proof. intros. unfold add16. destruct (_ <? _) eqn:?; lia. Qed.
+
+  Lemma step4 st a op : rel4 st a -> half_okb a op = true ->
+    rel4 (fst (r_step J jstep jout dk rate st (wrap_aop op))) (fst (a_step J jstep jout dk rate a op)) /\
+    option_map proj4 (snd (r_step J jstep jout dk rate st (wrap_aop op))) =
+    option_map proj4 (snd (a_step J jstep jout dk rate a op)).
+  Proof.
+    intros (Hj & Hl & Hlt & R) Hs. unfold half_okb in Hs.
+    destruct op as [now v ts|now ntp|now]; cbn [wrap_aop r_step a_step fst snd option_map].
+    - split; [|reflexivity]. unfold rel4, a_rtp, r_rtp.
+      destruct (a_hi a) as [H|] eqn:EH.
+      + destruct R as (Rs & Rl & Rc & Rts & Rtm).
+        rewrite Rs. cbn [negb]. cbv zeta. rewrite Rl, diff_mod.
+        cbn [a_hi a_jit a_lsr a_lsr_time a_prev a_ts a_time a_cum a_recv
+             r_started r_bits r_cycles r_last r_last_report r_last_rtp r_last_time r_jit r_lsr r_lsr_time r_total].
+        rewrite s32_sub32, Hj, Rts, Rtm.
+        split; [reflexivity|]. split; [assumption|]. split; [assumption|].
+        destruct (Z_le_gt_dec v H) as [Hle|Hgt].
+        * rewrite half_old by lia. cbn [andb]. replace (Z.max H v) with H by lia. repeat split; auto.
+        * rewrite half_new by lia. cbn [andb]. replace (Z.max H v) with v by lia.
+          rewrite Rc, half_cycles by lia. repeat split; auto.
+      + destruct R as (Rs & Rl & Rc). rewrite Rs. cbn [negb].
+        cbn [a_hi a_jit a_lsr a_lsr_time a_prev a_ts a_time a_cum a_recv
+             r_started r_bits r_cycles r_last r_last_report r_last_rtp r_last_time r_jit r_lsr r_lsr_time r_total].
+        rewrite Rc. repeat split; auto; lia.
+    - split; [|reflexivity]. unfold rel4, r_sr, a_sr; simpl. repeat split; auto.
+    - unfold a_report, a_report_gen, r_report. cbv zeta.
+      destruct (a_hi a) as [H|] eqn:EH; cbn [fst snd option_map proj4].
+      + destruct R as (Rs & Rl & Rc & Rts & Rtm).
+        split.
+        * unfold rel4. cbn [a_hi a_jit a_lsr a_lsr_time a_prev a_ts a_time a_cum a_recv
+             r_started r_bits r_cycles r_last r_last_report r_last_rtp r_last_time r_jit r_lsr r_lsr_time r_total].
+          repeat split; auto.
+        * rewrite Hj, Hl, Hlt, Rc, Rl, ext_value. unfold u32. reflexivity.
+      + destruct R as (Rs & Rl & Rc).
+        split.
+        * unfold rel4. rewrite EH. cbn [r_started r_bits r_cycles r_last r_last_report r_last_rtp r_last_time r_jit r_lsr r_lsr_time r_total].
+          repeat split; auto.
+        * rewrite Hj, Hl, Hlt, Rc, Rl. unfold u32. reflexivity.
+  Qed.
+
+  Theorem run4 : forall ops st a, rel4 st a -> in_half_scope a ops ->
+    map proj4 (r_run J jstep jout dk rate st (map wrap_aop ops)) =
+    map proj4 (a_run J jstep jout dk rate a ops).
+  Proof.
+    induction ops as [|op ops IH]; intros st a R Hs; cbn [map r_run a_run]; auto.
+    destruct Hs as [Hok Hs].
+    destruct (step4 st a op R Hok) as [A B].
+    destruct (r_step J jstep jout dk rate st (wrap_aop op)) as [st' o],
+             (a_step J jstep jout dk rate a op) as [a' o'].
+    cbn [fst snd] in *. specialize (IH st' a' A Hs).
+    destruct o as [r|], o' as [r'|]; cbn [option_map] in B; try discriminate; cbn [map].
+    - inversion B. rewrite IH. reflexivity.
+    - exact IH.
+  Qed.
+
+  Lemma rel4_init : rel4 (r_init J j0) (a_init J j0).
+  Proof. unfold rel4; simpl. repeat split; auto. Qed.
+End HalfRange.
